@@ -69,6 +69,18 @@ class Impl:
             self.store = VdirStore.open_from_path(self.path)
         self._load()
 
+    def switch(self):
+        """hand the collection to the other of two long-lived store objects on the same directory (two
+        worker processes of one deployment): what the first one remembers is not what is on disk now"""
+        if self.kind == "bare-mem":
+            return self.restart()
+        other = getattr(self, "other", None)
+        if other is None:
+            other = (VdirStore if self.kind == "vdir" else GitStore).open_from_path(self.path)
+            other.load_extra_file_handler(ICalendarFile)
+            other.load_extra_file_handler(VCardFile)
+        self.store, self.other = other, self.store
+
     def conc_etag(self, tok):
         if tok is None:
             return None
@@ -350,6 +362,10 @@ def execute(kind, template, toks, attrs, root, git_every_step=False):
             lines.append("setmeta %s %s | %s" % (enc(key), enc(value), impl.setmeta(key, value)))
         elif op[0] == "restart":
             impl.restart()
+            lines.append("restart | restart")
+        elif op[0] == "switch":
+            # for the model this is a restart: nothing a store object remembers may matter
+            impl.switch()
             lines.append("restart | restart")
         elif op[0] == "sync":
             if impl.mkind == "vdir":
